@@ -1,5 +1,6 @@
 import Driver.Proto
 import Neutrino.Spec.Store
+import Neutrino.Model.StoreReads
 open Neutrino.Store
 namespace Driver.Drv.Store
 
@@ -80,6 +81,23 @@ def idxOf (l : List Nat) (x : Nat) : Option Nat :=
     | y :: ys, i => if y == x then some i else go ys (i + 1)
   go l 0
 
+/-- the model's answer to a range read of the filter store (replayed on the durable state) -/
+def modelFanc (d : Durable) (ws : List String) : Option String :=
+  match ws with
+  | ["fanc", n, id] =>
+    some (match fetchFilterAncestors d (nat! n) (nat! id) with
+      | some (s, hs) => s!"{s} {showList hs}"
+      | none => "err")
+  | _ => none
+
+/-- what kind of answer a wrong read gave: fewer / other entries than the range holds, or an answer at all where the
+range is not in the file -/
+def readShape (ws : List String) (want obs : String) : String :=
+  match ws with
+  | ["fanc", _, _] | ["anc", _, _] =>
+    if want == "err" then "shape=range-read-beyond-file " else "shape=range-read-wrong-entries "
+  | _ => ""
+
 /-- expected answer of a read, from the spec log -/
 def readSpec (l : Log) (ws : List String) : Option String :=
   match ws with
@@ -93,6 +111,15 @@ def readSpec (l : Log) (ws : List String) : Option String :=
       let n := nat! n
       if n > h then some "err" else
       some s!"{h - n} {showList ((l.blocks.drop (h - n)).take (n + 1))}"
+  | ["fanc", n, id] =>
+    -- the filter store's ancestor range: the block's height from the list of blocks, the range from the list of
+    -- filter headers; a range that is not entirely in that list is an error
+    match idxOf l.blocks (nat! id) with
+    | none => some "err"
+    | some h =>
+      let n := nat! n
+      if n > h || h ≥ l.filters.length then some "err" else
+      some s!"{h - n} {showList ((l.filters.drop (h - n)).take (n + 1))}"
   | ["xf", id] =>
     match idxOf l.blocks (nat! id) with
     | none => some "nf"
@@ -112,6 +139,7 @@ def runCase : CaseFn := fun c => Id.run do
   let mut pendingCrash : Option (Log × Op) := none
   let mut failedOp : Option (Log × Op) := none
   let mut afterMode := false
+  let mut lastFailedAppend := false   -- the last mutating operation was an append that reported failure
   for (ln, line) in c.lines do
     let (opS, obs) := splitObs line
     let ws := words opS
@@ -138,14 +166,18 @@ def runCase : CaseFn := fun c => Id.run do
         | some (pre, op) =>
           pendingCrash := none
           if !recoveredOk pre op dm then
-            out := out.push s!"ORACLE-FAIL C08 case {c.num} line {ln}: after a crash in <{repr op}> and restart the stores are not what they were before or after the interrupted step: {obs}"
+            let shape := if !dm.gone || !dm.xb then "shape=crash-left-index-and-file-apart " else ""
+            out := out.push s!"ORACLE-FAIL C08 case {c.num} line {ln}: {shape}after a crash in <{repr op}> and restart the stores are not what they were before or after the interrupted step: {obs}"
           log := dm.toLog
         | none =>
           if unknown then
             -- only structural checks until the reopen
             pure ()
           else if !dm.matches log then
-            out := out.push s!"ORACLE-FAIL {pid} case {c.num} line {ln}: store differs from the plain list (expected B {showList log.blocks} F {showList log.filters}): {obs}"
+            let shape := if lastFailedAppend then
+                (if dm.toLog == log && !dm.gone then "shape=failed-append-left-index-entries "
+                 else "shape=failed-append-changed-store ") else ""
+            out := out.push s!"ORACLE-FAIL {pid} case {c.num} line {ln}: {shape}store differs from the plain list (expected B {showList log.blocks} F {showList log.filters}): {obs}"
         if !diverged && !unknown then
           let m := dumpOfDurable d
           if abs d |>.isNone then
@@ -170,6 +202,7 @@ def runCase : CaseFn := fun c => Id.run do
         if showOut mo != obs && !completedUnobserved then
           out := out.push s!"DIFF {pid} case {c.num} line {ln}: {opS} impl=<{obs}> model=<{showOut mo}>"
           diverged := true
+      lastFailedAppend := obs == "err" && (match op with | .wb _ | .wf _ => true | _ => false)
       -- property oracle on the implementation's own report
       if obs == "crashed" then
         -- a restart that is killed as well keeps the obligation of the operation that was interrupted first
@@ -205,7 +238,12 @@ def runCase : CaseFn := fun c => Id.run do
       match readSpec log ws with
       | some want =>
         if !unknown && pendingCrash.isNone && want != obs then
-          out := out.push s!"ORACLE-FAIL {pid} case {c.num} line {ln}: read {opS} returned {obs}, the plain list says {want}"
+          out := out.push s!"ORACLE-FAIL {pid} case {c.num} line {ln}: {readShape ws want obs}read {opS} returned {obs}, the plain list says {want}"
+        if !diverged && !unknown && pendingCrash.isNone then
+          if let some m := modelFanc d ws then
+            if m != obs then
+              out := out.push s!"DIFF {pid} case {c.num} line {ln}: {opS} impl=<{obs}> model=<{m}>"
+              diverged := true
       | none => out := out.push s!"DIFF {pid} case {c.num} line {ln}: unparsable op <{opS}>"
   return out
 
